@@ -2219,7 +2219,12 @@ func builtinAppend(env *LEnv, args *LVal) *LVal {
 		// the result is unsealed storage this call owns, so chaining extends
 		// it as before.  Exactly one allocation on each arm -- the sealed
 		// copy is sized for the append rather than clamped and regrown.
-		if seq.sealed {
+		if seq.sealed || len(vals) == 0 {
+			// No values is the one other input the clamp below does not
+			// reallocate: append(clampCap(cells)) with nothing to append
+			// returns the input slice itself, so the "new" vector shared
+			// seq's storage and an in-place operation on it (stable-sort,
+			// append!) changed seq.  Copy here too.
 			fresh := make([]*LVal, len(cells), len(cells)+len(vals))
 			copy(fresh, cells)
 			//elps:mutates appends into `fresh`, which this function allocated two lines above with capacity for exactly this append; the sealed input is only read
